@@ -10,7 +10,7 @@ from sa.loader import FuncInfo, AnalysisError
 from sa.report import Cx
 from sa.walker import Path, Event, WalkOptions
 from sa.terms import (Term, Sym, Attr, Sub, App, Num, Const, Fresh, TupleT, Formula, ACmp, AIn, ATruthy, FNot, FAnd, FOr,
-                      FConst, FTrue, f_and, f_or, f_not, compare, implies, atoms_of, mk_cmp, eval_formula, subst_atoms)
+                      FConst, FTrue, FFalse, f_and, f_or, f_not, compare, implies, atoms_of, mk_cmp, eval_formula, subst_atoms)
 
 CORE = 'ECAgent.Core.'
 ENV = 'ECAgent.Environments.'
@@ -559,3 +559,112 @@ def check_result_fresh(cx: Cx, fn_q: str, rule='R-FRESH', unroll=1):
     if n:
         cx.ok(rule, f"{fn.qualname}: result allocated in the call and not retained in shared state ({n} returning paths)", where=cx.where(fn),
               function=fn.qualname)
+
+
+# ---------------------------------------------------------------------------------------------- list pipelines
+@dataclass
+class ListFacts:
+    """How a returned/stored list is derived from a base container, independent of whether each stage is written as a
+    comprehension, as a loop with conditional appends, or as list(...) of another stage."""
+    ok: bool
+    err: str = ''
+    base_src: Term = None          # the iterable of the innermost stage (e.g. self.agents or self.agents.values())
+    base_var: Term = None          # its iteration variable
+    elem: Term = None              # what the final list holds, expressed over base_var
+    cond: Formula = None           # membership condition, expressed over base_var
+    stages: int = 0
+    forms: Tuple[str, ...] = ()
+
+
+def _loop_stage_table(paths: List[Path]):
+    """For every `for` loop that appends to a list allocated in the activation: the loop variable, the appended element,
+    and the disjunction over all paths of the in-iteration conditions under which the append happens."""
+    table = {}
+    for p in paths:
+        evs = p.events
+        for lp in [e for e in evs if e.kind == 'loop' and e.data.get('iter') is not None]:
+            iters = [e for e in evs if e.kind == 'iter' and e.node is lp.node]
+            if not iters:
+                continue
+            ends = [e for e in evs if e.kind == 'endloop' and e.node is lp.node]
+            i0 = evs.index(iters[0])
+            i1 = evs.index(iters[1]) if len(iters) > 1 else (evs.index(ends[-1]) if ends else len(evs))
+            seg = evs[i0:i1]
+            depth = len(iters[0].loops)
+            conds = [e.data['formula'] for e in seg if e.kind == 'cond' and len(e.loops) == depth]
+            apps = [e for e in seg if e.kind == 'store' and e.data.get('store') == 'append' and isinstance(strip_versions(e.data.get('target')), Fresh)
+                    and len(e.loops) == depth]
+            early = any(e.data.get('how') != 'exhausted' for e in ends)
+            row = table.setdefault(lp.node.lineno, {'var': None, 'info': iters[0].data['info'], 'src': lp.data.get('iter'), 'appended': {},
+                                                    'dropped': [], 'early': False, 'multi': False})
+            row['early'] = row['early'] or early
+            if len(apps) > 1:
+                row['multi'] = True
+            if apps:
+                tgt = strip_versions(apps[0].data.get('target'))
+                key = (tgt.kind, tgt.site)
+                slot = row['appended'].setdefault(key, {'elem': apps[0].data.get('args', (None,))[0], 'conds': []})
+                slot['conds'].append(f_and(*conds))
+            else:
+                row['dropped'].append(f_and(*conds))
+    return table
+
+
+def list_facts(paths: List[Path], p: Path, L: Term, is_base, _table=None, _depth=0) -> ListFacts:
+    """Resolve list L (as it is on path p) back to a base container recognised by is_base(src) -> bool."""
+    table = _table if _table is not None else _loop_stage_table(paths)
+    if _depth > 6:
+        return ListFacts(False, 'list pipeline too deep')
+    L = strip_versions(L)
+    if isinstance(L, Fresh) and L.kind in ('call:list', 'copy', 'call:tuple') and L.items:
+        inner = L.items[0]
+        if is_base(inner):
+            # list(base): every element, in order
+            v = Sym('<elem>')
+            return ListFacts(True, '', inner, v, v, FTrue, 1, ('copy',))
+        r = list_facts(paths, p, inner, is_base, table, _depth + 1)
+        return ListFacts(r.ok, r.err, r.base_src, r.base_var, r.elem, r.cond, r.stages + 1, r.forms + ('copy',)) if r.ok else r
+    stage = None
+    if isinstance(L, Fresh) and L.kind in ('listcomp', 'gen') and L.detail is not None and len(L.detail.gens) == 1:
+        tgt, src, conds = L.detail.gens[0]
+        stage = ('comp', tgt, src, f_and(*conds), L.detail.elt)
+    elif isinstance(L, Fresh) and L.kind in ('list', 'call:list') and not L.items:
+        rows = [(ln, r) for ln, r in table.items() if (L.kind, L.site) in r['appended']]
+        on_path = {e.node.lineno for e in p.events if e.kind == 'loop'}
+        rows = [(ln, r) for ln, r in rows if ln in on_path]
+        if not rows:
+            # never filled on this path: an empty list
+            return ListFacts(True, '', None, None, None, FFalse, 0, ('empty',))
+        if len(rows) > 1:
+            return ListFacts(False, 'the list is filled by more than one loop on this path')
+        ln, r = rows[0]
+        if r['early']:
+            return ListFacts(False, 'the loop that fills the list can be left early')
+        if r['multi']:
+            return ListFacts(False, 'an iteration appends more than once')
+        info = r['info']
+        slot = r['appended'][(L.kind, L.site)]
+        if info.get('kind') == 'items':
+            var = TupleT((info['index'], Sub(info['seq'], info['index'])))
+        elif info.get('kind') in ('enumerate', 'range'):
+            var = info.get('index')
+        else:
+            var = info.get('var')
+        here = [e for e in p.events if e.kind == 'loop' and e.node.lineno == ln]
+        src_here = here[0].data.get('iter') if here else r['src']
+        stage = ('loop', var, src_here, f_or(*slot['conds']), slot['elem'])
+    else:
+        return ListFacts(False, f"{L!r} is neither a comprehension, a list filled by a loop, nor a copy of one")
+    form, var, src, cond, elem = stage
+    src_s = strip_versions(src)
+    if is_base(src_s):
+        return ListFacts(True, '', src_s, var, elem, cond, 1, (form,))
+    r = list_facts(paths, p, src_s, is_base, table, _depth + 1)
+    if not r.ok:
+        return r
+    if r.elem is None:
+        return ListFacts(True, '', r.base_src, r.base_var, None, FFalse, r.stages + 1, r.forms + (form,))
+    from sa.terms import subst_term, subst_formula
+    mp = {var: r.elem} if var is not None else {}
+    return ListFacts(True, '', r.base_src, r.base_var, subst_term(elem, mp), f_and(r.cond, subst_formula(cond, mp)), r.stages + 1,
+                     r.forms + (form,))
